@@ -45,7 +45,10 @@ from typing import List
 from . import seeds
 
 VERIF = os.path.dirname(os.path.dirname(os.path.abspath(__file__)))
-EVIDENCE_DIR = os.path.join(VERIF, "evidence")
+# evidence committed under /verif/evidence comes from runs against /repo itself; runs against a
+# scratch tree (self-tests with VERIF_REPO) write theirs under scratch/ (git-ignored)
+_AGAINST_REPO = os.path.realpath(os.environ.get("VERIF_REPO", "/repo")) == os.path.realpath("/repo")
+EVIDENCE_DIR = os.path.join(VERIF, "evidence") if _AGAINST_REPO else os.path.join(VERIF, "scratch", "evidence")
 REPLAY_DIR = os.path.join(VERIF, "replays")
 KNOWN_FILE = os.path.join(VERIF, "known_findings.json")
 
